@@ -785,18 +785,21 @@ func (*UrlEncodeFunction).Execute
   props C06
   option safety
   requires validated-arguments: f != nil && len(args) >= 1 && len(args) <= 1
+  requires built-by-its-constructor: f.BaseFunction != nil
   modifies *
 
 func (*UrlDecodeFunction).Execute
   props C06
   option safety
   requires validated-arguments: f != nil && len(args) >= 1 && len(args) <= 1
+  requires built-by-its-constructor: f.BaseFunction != nil
   modifies *
 
 func (*TruncFunction).Execute
   props C06
   option safety
   requires validated-arguments: f != nil && len(args) >= 2 && len(args) <= 2
+  requires built-by-its-constructor: f.BaseFunction != nil
   modifies *
 
 func (*IfNullFunction).Execute
